@@ -295,6 +295,39 @@ func ruleKind(c *Ctx) {
 	}
 	c.atLeast("reflect.Type signature queries on Funcs values", nRef, 6)
 
+	// ATOMIC: setExecuteConfig runs initNativeFuncs only while p.nativeFuncs is nil, so the table must not
+	// be assigned before every check has passed - no error return may follow a store to it
+	if inf := c.ssaFunc("interp", "interp.initNativeFuncs"); inf != nil {
+		stored := false
+		bad := token.NoPos
+		for _, b := range inf.Blocks {
+			for _, in := range b.Instrs {
+				if name, _ := interpFieldStore(in); name != "nativeFuncs" {
+					continue
+				}
+				stored = true
+				reach := reachableFrom(b)
+				for rb := range reach {
+					if len(rb.Instrs) == 0 {
+						continue
+					}
+					if ret, ok := rb.Instrs[len(rb.Instrs)-1].(*ssa.Return); ok {
+						rr := retResults(ret)
+						if len(rr) > 0 && !isNilConst(rr[len(rr)-1]) {
+							bad = ret.Pos()
+						}
+					}
+				}
+			}
+		}
+		if !stored {
+			c.undecided("init-atomic", inf.Pos(), "initNativeFuncs does not assign p.nativeFuncs")
+		} else {
+			c.check(bad == token.NoPos, "init-atomic", bad, "the native-function table is assigned only after every check has passed",
+				"initNativeFuncs can return an error after it has assigned p.nativeFuncs: the next Execute of the same Interpreter sees a non-nil table, skips validation, and a call of the rejected function indexes out of range or panics in reflect")
+		}
+	}
+
 	// INDEX: setup verifies the program's native functions against the sorted key list
 	ifd := c.funcDecl("interp", "interp.initNativeFuncs")
 	if ifd == nil {
